@@ -184,6 +184,48 @@ def accuracy_block(ctx, rng):
                 ctx.count("map:" + name)
 
 
+def memory_layout_block(ctx, rng):
+    """the same state handed over in different memory layouts (C order, Fortran order, a transposed view, a strided view): the Jacobian is
+    a function of the values, not of how the caller's array is laid out in memory; through JacobianWrapper and through DiffRHS.jac"""
+    import random as _random
+    r = _random.Random(ctx.seed * 15485863 + 16)
+    B = np.arange(24.0).reshape(4, 2, 3) / 7.0 - 1.0
+    cases = [("linear-tensor", lambda y: np.tensordot(B, y, axes=([1, 2], [0, 1])), (2, 3)),
+             ("matrix-to-matrix", lambda y: y @ y.T, (2, 2)),
+             ("cubic-3x2", lambda y: np.array([np.sum(y ** 3), y[0, 1] * y[2, 0], np.sin(y[1, 1])]), (3, 2))]
+    for (name, f, ishape) in cases:
+        for rep in range(2 if ctx.quick() else 6):
+            y = np.array([r.uniform(-1, 1) for _ in range(int(np.prod(ishape)))]).reshape(ishape)
+            big = np.zeros((2 * ishape[0], 2 * ishape[1])); big[::2, ::2] = y
+            layouts = [("fortran", np.asfortranarray(y)), ("transposed-view", np.ascontiguousarray(y.T).T), ("strided-view", big[::2, ::2])]
+            for order in (2, 5):
+                ref = np.asarray(U.JacobianWrapper(f, base_order=order, flat=False)(np.ascontiguousarray(y)))
+                for (lname, yl) in layouts:
+                    inp = dict(kind="jacobian-wrapper-layout", map=name, base_order=order, layout=lname, y=y.tolist())
+                    try:
+                        J = np.asarray(U.JacobianWrapper(f, base_order=order, flat=False)(yl))
+                    except Exception as e:
+                        ctx.oracle("wrapper-runs", False, inp, what="JacobianWrapper raised %r on a %s state" % (e, lname))
+                        continue
+                    err = float(np.max(np.abs(J - ref))) if J.shape == ref.shape else float("inf")
+                    ctx.oracle("derivative-accurate", err <= 1e-7 * (1 + float(np.max(np.abs(ref)))), dict(inp, err=err), key="jacobian-depends-on-memory-layout",
+                               what="the Jacobian at a %s copy of the state differs from the one at the C-ordered state by %.2e" % (lname, err))
+                    ctx.count("memory-layout:" + lname)
+            # through the right-hand-side wrapper
+            w = DS.DiffRHS(lambda t, y, f=f: (1.0 + t) * f(y))
+            ref = np.asarray(w.jac(0.5, np.ascontiguousarray(y)))
+            for (lname, yl) in layouts:
+                inp = dict(kind="diffrhs-jac-layout", map=name, layout=lname, y=y.tolist())
+                try:
+                    J = np.asarray(DS.DiffRHS(lambda t, y, f=f: (1.0 + t) * f(y)).jac(0.5, yl))
+                except Exception as e:
+                    ctx.oracle("wrapper-runs", False, inp, what="DiffRHS.jac raised %r on a %s state" % (e, lname))
+                    continue
+                err = float(np.max(np.abs(J - ref))) if J.shape == ref.shape else float("inf")
+                ctx.oracle("derivative-accurate", err <= 1e-7 * (1 + float(np.max(np.abs(ref)))), dict(inp, err=err), key="jacobian-depends-on-memory-layout",
+                           what="DiffRHS.jac at a %s copy of the state differs from the one at the C-ordered state by %.2e" % (lname, err))
+
+
 def reuse_block(ctx, rng):
     """ONE JacobianWrapper object (and one DiffRHS) evaluated at a sequence of points of very different difficulty: the result at a
     point must not depend on what the same object evaluated before"""
@@ -256,6 +298,7 @@ def implicit_block(ctx, rng):
 
 
 def run(ctx):
+    memory_layout_block(ctx, ctx.rng)
     dispatch_block(ctx, ctx.rng)
     accuracy_block(ctx, ctx.rng)
     reuse_block(ctx, ctx.rng)
